@@ -95,3 +95,20 @@ CONTRACTS.update({
         modifies=[],
     ),
 })
+
+CONTRACTS.update({
+    "nodes/graph_node.py:GraphNode.__init__": dict(
+        props=["C05"],
+        params={"self": OBJ("GraphNode"), "graph": OBJ("Graph"), "name": OPT(STR)},
+        returns=NONE_T,
+        may_raise={"ValueError": True},
+        # the interface of a nested-graph node IS the wrapped graph's: its inputs are the graph's full input specification,
+        # its outputs the graph's selection (or all outputs), and it wraps exactly the graph it was given
+        ensures=["self._graph is graph", "self.inputs == graph.inputs.all",
+                 "self.outputs == (graph.selected if graph.selected is not None else graph.outputs)",
+                 "self.name is not None", "self._map_over is None"],
+        modifies=["self"],
+        loops=[{"invariant": []}],
+    ),
+})
+
